@@ -44,12 +44,14 @@ def gen_history(r, quick, ids):
             elif k < 0.62:
                 ops.append(r.choice([X.op_emit_bad_funcs(ids, frm), X.op_invoke_receipt_missing(ids, frm)]))
             elif k < 0.70:
-                to = r.choice(list(level.keys()) + ["c:store", frm])
+                to = r.choice(list(level.keys()) + ["c:store", frm, "u:%d" % r.randrange(40, 60)])
                 ops.append(X.op_transfer(frm, to, r.choice(["0", "1", str(level.get(frm, 10**6)), str(level.get(frm, 10**6) + 1), "abc", "5"])))
             elif k < 0.76:
                 ops.append(X.op_bad(frm, r.randrange(3)))
-            elif k < 0.86:
+            elif k < 0.82:
                 ops.append(X.op_ibtp_defect(frm, next_index, r.choice(X.PROOF_DEFECTS)))
+            elif k < 0.86:
+                ops.append(X.op_ibtp_receipt_defect(frm, max(next_index - 1, 1), r.choice(X.PROOF_DEFECTS)))
             elif k < 0.92:
                 ops.append(X.op_ibtp_wrong_index(frm, next_index + 1 + r.randrange(3)))
             else:
@@ -156,6 +158,11 @@ def corpus_histories(ids):
         mk([f("u:1", 100000), f("u:2", 1)], [[X.op_transfer("u:1", "u:2", "90000")]], gas=1),
         # bad signature in a non-local block
         mk([f("u:1", 1)], [[X.op_bad_signature(ids, "u:1", "k1", 3), X.op_store_set(ids, "u:2", "k2", 4)]], blk_kw={"local": False}),
+        # a FAILED transfer (amount affordable, fee not) to an account the ledger has never seen must not leave an account record
+        mk([f("u:1", 100)], [[X.op_transfer("u:1", "u:50", "50")], [X.op_transfer("u:1", "u:51", "100"), X.op_transfer("u:1", "u:52", "0")]], gas=1),
+        # a FAILED receipt (rejected proof) must not take the answered request off the timeout list
+        mk(list(X.SEED2) + [f("u:0", 10**12)],
+           [[X.op_ibtp_ok(ids, "u:0", 1)], [X.op_ibtp_receipt_defect("u:0", 1, "mismatch")], [X.op_ibtp_receipt_defect("u:0", 1, "absent")]]),
         # cold cache: key committed, node restarted, FAILED blind overwrite (fee) after another tx loaded the contract, reads
         mk([f("u:0", 10**12), f("u:1", 1)],
            [[X.op_store_set(ids, "u:0", "k1", 70)], RESTART,
